@@ -1100,6 +1100,10 @@ class Executor:
         return tuple(out)
 
     def ev_List(self, node):
+        if any(isinstance(e, ast.Starred) for e in node.elts):
+            r = self.models._plug("list_display", self, node)  # [x, *xs] (opt-in: plug_c16)
+            if r is not NotImplemented:
+                return r
         items = [self.ev(e) for e in node.elts]
         return self.models.make_list(self, items)
 
@@ -1687,7 +1691,21 @@ class Executor:
         rest = {}
         for k, v in kwargs.items():
             if k == "**":
-                raise Unsupported("symbolic **kwargs forwarding")
+                # f(.., **d) with a symbolic dict of string keys into a signature without **kwargs (CPython semantics): a key naming a
+                # parameter binds it (TypeError when it is already bound), any other key is a TypeError; absent parameters keep their defaults
+                d = self.st.heap[v.id] if isinstance(v, Ref) else None
+                if not isinstance(d, DictObj) or d.k != TStr or a.kwarg is not None or a.posonlyargs:
+                    raise Unsupported("symbolic **kwargs forwarding")
+                names = [x.arg for x in a.args] + kwonly
+                kq = z3.Const("k!kw", TStr.sort())
+                if not self.st.decide(z3.ForAll([kq], z3.Implies(d.member[kq], z3.Or(*[kq == str_lit(p) for p in names]))) if names else d.n == 0):
+                    raise PyRaise("TypeError", lineno)
+                for p in names:
+                    if self.st.decide(d.member[str_lit(p)]):
+                        if p in bound:
+                            raise PyRaise("TypeError", lineno)
+                        bound[p] = d.v.project(self.st, d.vals[str_lit(p)])
+                continue
             if k in pos or k in kwonly:
                 bound[k] = v
             elif a.kwarg is not None:
